@@ -2727,4 +2727,68 @@ theorem closer_drains : ∀ (k : Nat) (n : Node), Inv n → droppedCount n.t ≤
       have h' : droppedCount (closer n).1.t < droppedCount n.t := this
       omega
 
+/-! ## The acknowledgement sent for a duplicate (round H1; one-step lemmas, any node)
+`arriveAck` is the side function of `arrive` that says which standalone ack the `Duplicate` arm of
+`handle_rx_packet` sends. -/
+
+theorem dupAck_matches (s : Sess) (m : Msg) : AckMatchesPeer m (dupAck s m) := by
+  refine ⟨rfl, rfl, rfl, ?_⟩
+  cases hm : m.initiator <;> simp [peerExch, dupAck, Wire.hdr, Exch.isForRx, hm, RoleSt.isResponder]
+
+theorem finishArrive_dup (n : Node) (t : Table) (s : Sess) (m : Msg)
+    (hd : (finishArrive n t s m).2 = .dropped (some .duplicate)) :
+    (s.postRecv m.hdr n.now).2 = .error .duplicate := by
+  unfold finishArrive at hd
+  generalize hr : (s.postRecv m.hdr n.now) = r at hd
+  obtain ⟨s1, res⟩ := r
+  cases res with
+  | ok b =>
+    simp only at hd
+    split at hd
+    · cases hd
+    · split at hd
+      · cases hd
+      · split at hd <;> cases hd
+  | error e =>
+    cases e <;> simp_all
+    all_goals (try (split at hd <;> simp_all))
+
+theorem finishArrive_dup_ack (n : Node) (t : Table) (s : Sess) (m : Msg) (hk : m.kind ≠ .sack)
+    (hd : (finishArrive n t s m).2 = .dropped (some .duplicate)) :
+    finishArriveAck n s m = some (dupAck s m) := by
+  have := finishArrive_dup n t s m hd
+  unfold finishArriveAck
+  rw [this]
+  simp [hk]
+
+theorem arrive_dup_ack (n : Node) (m : Msg) (rnd : Nat) (hk : m.kind ≠ .sack)
+    (hd : (arrive n m rnd).2 = .dropped (some .duplicate)) :
+    ∃ s, arriveAck n m rnd = some (dupAck s m) := by
+  unfold arrive at hd
+  unfold arriveAck
+  cases hrx : n.rx with
+  | some h => simp [hrx] at hd
+  | none =>
+    simp only [hrx] at hd ⊢
+    generalize n.t.getForRx m.port m.sid n.now = g at hd ⊢
+    obtain ⟨t1, os⟩ := g
+    cases os with
+    | some s => exact ⟨s, finishArrive_dup_ack n _ s m hk hd⟩
+    | none =>
+      simp only at hd ⊢
+      by_cases hc : m.sid = 0 ∧ m.kind = .newSess
+      · rw [if_pos hc] at hd ⊢
+        generalize addSess t1 rnd false n.now m.port = a at hd ⊢
+        obtain ⟨t2, r⟩ := a
+        cases r with
+        | error e => simp at hd
+        | ok uid =>
+          simp only at hd ⊢
+          cases hs2 : t2.sess uid with
+          | none => simp [hs2] at hd
+          | some s =>
+            simp only [hs2] at hd ⊢
+            exact ⟨s, finishArrive_dup_ack n _ s m hk hd⟩
+      · rw [if_neg hc] at hd
+        simp at hd
 end RxPath
